@@ -162,19 +162,42 @@ SLUGS6 = {
     "C17_change1": ("get-mut-resets-raw-lock", "LockableGetMut::get_mut of Mutex / RwLock resets the raw lock to INIT before returning &mut T: a lock held through a leaked guard becomes free", "get_mut through the trait (collections, Poisonable, containers) on a lock held through a forgotten guard"),
 }
 
+SLUGS7 = {
+    "C01_change1": ("rwlock-scoped-read-takes-shared-twice", "RwLock::scoped_read acquires shared access a second time (through a new read_no_key helper) while the first share is held: a writer queueing in between blocks the second acquisition behind itself", "RwLock::scoped_read with a writer starting to wait between the two internal acquisitions (writer-preferring lock)"),
+    "C02_change1": ("poisonable-scoped-try-read-unwind-releases-exclusive", "Poisonable::scoped_try_read's unwind handler uses a shared helper that releases in exclusive mode", "Poisonable over RwLock(s), scoped_try_read with a panicking closure while another reader is inside, then a writer"),
+    "C03_change1": ("poisonable-raw-unlock-write-forwards-to-read", "Poisonable's RawLock::raw_unlock_write forwards to inner.raw_unlock_read(): scoped_lock / scoped_try_lock on a wrapped RwLock release in shared mode and leave the exclusive hold in place", "Poisonable<RwLock> (or a wrapped collection containing one) through the exclusive scoped API"),
+    "C04_change1": ("ordered-read-rollback-one-short", "ordered_read records locked.set(i) instead of counting: the unwind rollback is one lock short, member k-1 stays read-held when acquiring member k panics", "blocking read of a boxed / ref / owned collection with a panic (killed lock) at position >= 1"),
+    "C05_change1": ("ordered-acquire-counts-before-acquiring", "ordered_write / ordered_read set their progress counter before the acquisition: the unwind handler also releases the member whose acquisition panicked", "blocking collection acquisition with a member that panics while another thread holds it"),
+    "C06_change1": ("collection-scoped-read-key-manuallydrop", "utils::scoped_read / scoped_try_read wrap the key in ManuallyDrop and release it by hand after the closure: a panicking closure leaks an owned key", "collection scoped read with an owned key and a panicking closure, then ThreadKey::get()"),
+    "C07_change1": ("ref-try-new-caches-last-verdict", "RefLockCollection::try_new caches (address, count) of the last accepted input per thread and skips the scan when they match", "accept a list, overwrite a slot in place so a lock appears twice, call try_new again on the same storage"),
+    "C08_change1": ("boxed-sort-key-drops-low-bits", "BoxedLockCollection sorts by address >> 3: locks inside one 8-byte word compare equal and keep their listing order", "boxed collection over neighbouring small-payload mutexes (Mutex<u8>) listed against address order"),
+    "C09_change1": ("retry-pair-fast-path-ordered-write", "RetryingLockCollection::raw_write takes a two-lock collection with the blocking ordered_write", "retrying collection of exactly two locks, write mode, the higher-address member held by another thread"),
+    "C10_change1": ("poisonable-get-mut-takes-flag", "Poisonable's get_mut / child_mut read the poison flag with mem::take: the first &mut view of a poisoned wrapper un-poisons it", "poison, get_mut()/child_mut() (directly or through the owning collection), then observe"),
+    "C11_change1": ("write-ref-drop-kills-lock-when-panicking", "RwLockWriteRef::drop kills the lock (RawLock::poison) when the guard was mutably dereferenced and the thread is panicking", "guard-API write hold on an RwLock, dereferenced mutably, dropped by a user panic"),
+    "C12_change1": ("rwlock-raw-read-slow-path-unprotected", "RwLock::raw_read tries first and takes the blocking slow path without handle_unwind: a panicking lock_shared no longer kills the lock", "contended blocking read whose raw lock_shared panics"),
+    "C13_change1": ("poisonable-scoped-try-skips-release-when-poisoned", "Poisonable::scoped_try_lock / scoped_try_read skip their final release when the wrapper is already poisoned", "already-poisoned Poisonable, successful scoped try"),
+    "C14_change1": ("threadkey-marker-cell", "ThreadKey's marker becomes PhantomData<Cell<()>>: Cell is Send, the existing unsafe impl Sync cancels !Sync, so ThreadKey becomes Send", "moving a ThreadKey to another thread"),
+    "C15_change1": ("boxed-as-mut", "impl AsMut for BoxedLockCollection: the child can be changed structurally after the sorted lock list was recorded", "as_mut() as &mut Vec, push a member, then lock through the collection"),
+    "C16_change1": ("retry-try-new-reject-leaks", "RetryingLockCollection::try_new wraps its input in ManuallyDrop and returns None early on a duplicate: a rejected input is never dropped", "rejected try_new whose input owns a value next to a duplicate reference"),
+    "C17_change1": ("rwlock-debug-kills-on-payload-panic", "RwLock's Debug formats inside handle_unwind(.., || self.poison()): a panicking payload Debug kills the lock", "formatting a free RwLock whose payload's Debug panics"),
+}
+
 ROOT = "/verif/seeded"
 
 
 def main():
     os.makedirs(ROOT, exist_ok=True)
-    items = [(1, k, v) for k, v in sorted(SLUGS.items())] + [(2, k, v) for k, v in sorted(SLUGS2.items())] + [(3, k, v) for k, v in sorted(SLUGS3.items())] + [(4, k, v) for k, v in sorted(SLUGS4.items())] + [(5, k, v) for k, v in sorted(SLUGS5.items())] + [(6, k, v) for k, v in sorted(SLUGS6.items())]
+    items = [(1, k, v) for k, v in sorted(SLUGS.items())] + [(2, k, v) for k, v in sorted(SLUGS2.items())] + [(3, k, v) for k, v in sorted(SLUGS3.items())] + [(4, k, v) for k, v in sorted(SLUGS4.items())] + [(5, k, v) for k, v in sorted(SLUGS5.items())] + [(6, k, v) for k, v in sorted(SLUGS6.items())] + [(7, k, v) for k, v in sorted(SLUGS7.items())]
+    only = int(sys.argv[1]) if len(sys.argv) > 1 else None  # `mkseeded.py 7`: assemble round 7 only (keeps the re-detected meta.json of the others)
     for rnd, key, (slug, what, needs) in items:
+        if only is not None and rnd != only:
+            continue
         prop, ch = key.split("_")
-        src = {1: "/tmp/seed-%s/%s", 2: "/tmp/seed2-%s/%s", 3: "/tmp/seed3-%s/%s", 4: "/tmp/seed4-%s/%s", 5: "/tmp/seed5-%s/%s", 6: "/tmp/seed6-%s/%s"}[rnd] % (prop, ch)
+        src = {1: "/tmp/seed-%s/%s", 2: "/tmp/seed2-%s/%s", 3: "/tmp/seed3-%s/%s", 4: "/tmp/seed4-%s/%s", 5: "/tmp/seed5-%s/%s", 6: "/tmp/seed6-%s/%s", 7: "/tmp/seed7-%s/%s"}[rnd] % (prop, ch)
         if not os.path.isdir(src):
             print("missing", src)
             continue
-        sid = "%s-%s-%s" % (prop, str(int(ch[-1]) + {1: 0, 2: 2, 3: 4, 4: 5, 5: 6, 6: 7}[rnd]), slug)
+        sid = "%s-%s-%s" % (prop, str(int(ch[-1]) + {1: 0, 2: 2, 3: 4, 4: 5, 5: 6, 6: 7, 7: 8}[rnd]), slug)
         d = os.path.join(ROOT, sid)
         os.makedirs(d, exist_ok=True)
         shutil.copy(os.path.join(src, "patch.diff"), os.path.join(d, "patch.diff"))
@@ -185,7 +208,7 @@ def main():
         if os.path.exists(os.path.join(src, "README.md")):
             shutil.copy(os.path.join(src, "README.md"), os.path.join(d, "AUTHOR_README.md"))
         verify = {}
-        vf = {1: "/tmp/verify-results/%s.json", 2: "/tmp/verify2-results/%s.json", 3: "/tmp/verify3-results/%s.json", 4: "/tmp/verify4-results/%s.json", 5: "/tmp/verify5-results/%s.json", 6: "/tmp/verify6-results/%s.json"}[rnd] % key
+        vf = {1: "/tmp/verify-results/%s.json", 2: "/tmp/verify2-results/%s.json", 3: "/tmp/verify3-results/%s.json", 4: "/tmp/verify4-results/%s.json", 5: "/tmp/verify5-results/%s.json", 6: "/tmp/verify6-results/%s.json", 7: "/tmp/verify7-results/%s.json"}[rnd] % key
         if os.path.exists(vf):
             try:
                 verify = json.load(open(vf))
@@ -194,7 +217,7 @@ def main():
             except Exception:
                 pass
         detect = {}
-        df = {1: "/tmp/detect/results/%s.json", 2: "/tmp/detect/results2/%s.json", 3: "/tmp/detect/results3/%s.json", 4: "/tmp/detect/results4/%s.json", 5: "/tmp/detect/results5/%s.json", 6: "/tmp/detect/results6/%s.json"}[rnd] % key
+        df = {1: "/tmp/detect/results/%s.json", 2: "/tmp/detect/results2/%s.json", 3: "/tmp/detect/results3/%s.json", 4: "/tmp/detect/results4/%s.json", 5: "/tmp/detect/results5/%s.json", 6: "/tmp/detect/results6/%s.json", 7: "/tmp/detect/results7/%s.json"}[rnd] % key
         if os.path.exists(df):
             try:
                 detect = json.load(open(df))
@@ -202,7 +225,7 @@ def main():
                 pass
         # final run of the property's own check with the committed machinery, on /repo itself
         final = {}
-        ff = {1: "/tmp/detect/final/%s.json", 2: "/tmp/detect/final2/%s.json", 3: "/tmp/detect/final3/%s.json", 4: "/tmp/detect/final4/%s.json", 5: "/tmp/detect/final5/%s.json", 6: "/tmp/detect/final6/%s.json"}[rnd] % key
+        ff = {1: "/tmp/detect/final/%s.json", 2: "/tmp/detect/final2/%s.json", 3: "/tmp/detect/final3/%s.json", 4: "/tmp/detect/final4/%s.json", 5: "/tmp/detect/final5/%s.json", 6: "/tmp/detect/final6/%s.json", 7: "/tmp/detect/final7/%s.json"}[rnd] % key
         if os.path.exists(ff):
             try:
                 final = json.load(open(ff))
